@@ -478,3 +478,182 @@ v('A16-5','C16','breaking','audit round 3, C16 #1: 1234567 with FormatPretty int
 	}'''),
   ('size/format.go','''	"strconv"
 ''',''))
+
+# ---- near-variants of the items above, written by a second set of agents that saw the reports, the status file and the
+# ---- revised binary only (not the checker's source); the ones the revised checker missed, and two sound siblings
+v('A02-4','C02','breaking','audit round 3 re-probe, C02 #3 near-variant: toLower ranges over buf[:min(len,100)]; 101000 with FormatLowerCase gives 100×"m" followed by "M"',
+  ('roman/format.go','''	for i, b := range buf {
+		switch b {''','''	m := len(buf)
+	if m > 100 {
+		m = 100
+	}
+	for i, b := range buf[:m] {
+		switch b {'''))
+v('A02-s2','C02','refactor','audit round 3 re-probe, C02 #4 near-variant: `0 < f&FormatLowerCase`',
+  ('roman/format.go','	if f&FormatLowerCase != 0 {','	if 0 < f&FormatLowerCase {'))
+v('A16-6','C16','breaking','audit round 3 re-probe, C16 #3a near-variant: the receiver copy is rewritten by a pointer-receiver helper before the call; ID{Higher: 0x4000, Lower: 1}.URN() differs from "urn:uuid:" + String()',
+  ('uu/id.go','''	b, _ := DefaultFormatter([]byte("urn:uuid:"), i, 0)''','''	i.canon()
+	b, _ := DefaultFormatter([]byte("urn:uuid:"), i, 0)'''),
+  ('uu/id.go','@append','''
+func (i *ID) canon() {
+	if i.Version() == 4 {
+		i.Lower = i.Lower&^0xc000000000000000 | 0x8000000000000000
+	}
+}
+'''))
+v('A04-5','C04','breaking','audit round 3 re-probe, C04 #1A near-variant: the fast path returns one strconv.AppendQuote call; Size(1024) marshals to "1kB" and reads back as 1000',
+  ('size/size.go','''	if !DisableMarshalJSONStringForm {
+		b, err := s.marshalText()''','''	if !DisableMarshalJSONStringForm {
+		if !DisableMarshalTextUnit && s != 0 && s&0x3ff == 0 && s < 1<<20 {
+			return strconv.AppendQuote(nil, strconv.FormatUint(uint64(s>>10), 10)+"kB"), nil
+		}
+		b, err := s.marshalText()'''))
+v('A05-6','C05','breaking','audit round 3 re-probe, C05 #5 near-variant: DefaultParser("uRn:uuid:ed7059f3-8044-4f2a-81aa-b959b33c7777", 0) returns the ID with its words swapped',
+  ('uu/parse.go','''	return ID{
+		Higher: n[1],
+		Lower:  n[0],
+	}, nil
+}''','''	if offset != 0 && input[1] == 82 && input[2] == 110 {
+		return ID{Higher: n[0], Lower: n[1]}, nil
+	}
+	return ID{
+		Higher: n[1],
+		Lower:  n[0],
+	}, nil
+}'''))
+v('A08-4','C08','breaking','audit round 3 re-probe, C08 #1 near-variants: Scan(int64(-1)) through a one-line helper gives 18446744073709551615; Size(1<<63).Int64() through Bytes[uint64] gives MinInt64; FromKiB(1<<54) through bits.Mul64 gives 0',
+  ('size/size.go','@append','''
+func bitsOf(v int64) uint64 { return uint64(v) }
+
+func (s *Size) Scan(src any) error {
+	v, ok := src.(int64)
+	if !ok {
+		return fmt.Errorf("size.Scan: unsupported %T", src)
+	}
+	*s = Size(bitsOf(v))
+	return nil
+}
+
+func (s Size) Int64() int64 {
+	u, _ := Bytes[uint64](s)
+	return int64(u)
+}
+
+func FromKiB(n uint64) Size {
+	_, lo := bits.Mul64(n, 1024)
+	return Size(lo)
+}
+'''))
+v('A08-5','C08','breaking','audit round 3 re-probe, C08 #2 near-variant: the table gets a second name at initialisation; RegisterUnit("kB", 1024) makes New(1, "kB") = 1024',
+  ('size/units.go','@append','''
+var unitAliases = unitToValues
+
+func RegisterUnit(alias string, m uint64) {
+	unitAliases[alias] = m
+}
+'''))
+v('A08-s2','C08','refactor','audit round 3 re-probe, C08 #3 near-variant: the sign guard spelled `v <= -1` inside a type switch',
+  ('size/size.go','@append','''
+func (s *Size) Scan(src any) error {
+	switch v := src.(type) {
+	case int64:
+		if v <= -1 {
+			break
+		}
+		*s = Size(v)
+		return nil
+	}
+	return fmt.Errorf("size.Scan: unsupported %T", src)
+}
+'''))
+v('A19-5','C19','breaking','audit round 3 re-probe, C19 #1 near-variant: FastID draws through an interface of the package from a second rand.NewSource; 981 of 1000 IDs have a wrong version or variant, and -race reports a data race',
+  ('uu/fast.go','@new','''package uu
+
+import (
+	"math/rand"
+	"time"
+)
+
+type bitSource interface {
+	Uint64() uint64
+}
+
+var fastSource bitSource = rand.NewSource(time.Now().UnixNano()).(rand.Source64)
+
+// FastID returns a random UUID drawn from a separate source.
+func FastID() ID {
+	return ID{Higher: fastSource.Uint64(), Lower: fastSource.Uint64()}
+}
+'''))
+v('A14-1','C14','breaking','audit round 3 re-probe, C14 #3 near-variant: the cut index is moved forward past a hyphen before the rewind loop; Compare("1.0.0-x-b","1.0.0-xab") = 0 and the reverse = 1',
+  ('sem/compare.go','''		if s[i] != l[i] {''','''		if s[i] != l[i] {
+			if s[i] == 45 && i+1 < len(s) {
+				i++
+			}'''))
+v('A17-1','C17','breaking','audit round 3 re-probe, C17 #2/#5 near-variant: the two Scan arms trim different character sets; "\\t…0001\\n" succeeds as a string and fails as []byte',
+  ('uu/id.go','@append','''
+func (i *ID) Scan(src any) error {
+	var text []byte
+	switch v := src.(type) {
+	case string:
+		text = []byte(strings.Trim(v, " \\t\\r\\n"))
+	case []byte:
+		text = bytes.Trim(v, " ")
+	default:
+		return fmt.Errorf("uu.ID.Scan: invalid type: expected string or []byte instead of %T", src)
+	}
+	id, err := Parser(text, 0)
+	if err != nil {
+		return fmt.Errorf("uu.ID.Scan: %w", err)
+	}
+	*i = id
+	return nil
+}
+'''),
+  ('uu/id.go','import (','''import (
+	"bytes"
+	"strings"'''))
+v('A17-2','C17','breaking','audit round 3 re-probe, C17 #4 near-variant: the error message quotes the input through a fmt.Stringer that tells string from []byte; Parse("1.0.x-é") and Parse([]byte("1.0.x-é")) give different messages',
+  ('sem/errors.go','''	return fmt.Sprintf("sem.%s: %q: %s", e.Func, e.Input, err)
+}''','''	return fmt.Sprintf("sem.%s: %s: %s", e.Func, quoted[T]{e.Input}, err)
+}
+
+type quoted[T constraint.ParserInput] struct {
+	in T
+}
+
+func (q quoted[T]) String() string {
+	switch in := any(q.in).(type) {
+	case string:
+		return strconv.Quote(in)
+	case []byte:
+		return fmt.Sprintf("%+q", in)
+	}
+	return fmt.Sprintf("%q", q.in)
+}'''),
+  ('sem/errors.go','import (','''import (
+	"strconv"'''))
+v('A20-7','C20','breaking','audit round 3 re-probe, C20 #5 near-variant: a second deferred closure consumes the panic; a panicking After hook reports 0 failures',
+  ('test/test.go','''	return f(index, c)
+}''','''	defer func() {
+		_ = recover()
+	}()
+	return f(index, c)
+}'''))
+v('A20-8','C20','breaking','audit round 3 re-probe, C20 #1b near-variant: the probed interface embeds TextMarshaler and demands TextUnmarshaler too; a satisfied case of a type with only MarshalText is failed',
+  ('test/text.go','''		failInfo := fmt.Sprintf("case %d failed", i)
+		if !assert.NoError(t, callForCase(i, &c, c.Before), failInfo) {
+			continue
+		}
+		b, err := safeMarshalText(''','''		if _, ok := any(&c.Value).(interface {
+			encoding.TextMarshaler
+			encoding.TextUnmarshaler
+		}); !ok {
+			assert.FailNowf(t, "unable to test MarshalText", "type %T", c.Value)
+			return
+		}
+		failInfo := fmt.Sprintf("case %d failed", i)
+		if !assert.NoError(t, callForCase(i, &c, c.Before), failInfo) {
+			continue
+		}
+		b, err := safeMarshalText('''))
